@@ -111,7 +111,7 @@ class Call(object):
 CONTEXTS = ['return', 'assign', 'if', 'try', 'with', 'comprehension', 'nested_def',
             'lambda', 'decoy_before', 'decoy_wrap', 'ifelse2', 'nested_decoy', 'lambda_decoy']
 ROUTES = ['global', 'closure', 'attribute', 'method', 'parameter', 'partial_route', 'chain_kw', 'chain_pos',
-          'modifiers']
+          'modifiers', 'param_default']
 TAINTS = ['rebind', 'augassign', 'mutate_method', 'mutate_item', 'delete', 'pass_on',
           'nonlocal', 'read', 'inline']
 
@@ -126,6 +126,7 @@ class Prog(object):
         self.taint = None           # (kind, star 'args'|'kwargs', 'before'|'after') or None
         self.decoys = 0
         self.rename_locals = False
+        self.nosource = False       # callees defined through exec: no retrievable source
         self.source = None
 
     @property
@@ -146,7 +147,7 @@ class Prog(object):
         return {'outer': '(%s)' % param_list_src(self.outer),
                 'callees': {k: '(%s)' % param_list_src(v) for k, v in self.callees.items()},
                 'calls': [c.describe() for c in self.calls], 'context': self.context,
-                'route': self.route, 'taint': self.taint, 'decoys': self.decoys}
+                'route': self.route, 'taint': self.taint, 'decoys': self.decoys, 'nosource': self.nosource}
 
     # ------------------------------------------------------------ rendering
     def callee_expr(self, key):
@@ -158,7 +159,7 @@ class Prog(object):
             return 'ns.sub.' + key
         if self.route == 'method':
             return 'self.' + key
-        if self.route == 'parameter':
+        if self.route in ('parameter', 'param_default'):
             return 'fparam'
         if self.route in ('chain_kw', 'chain_pos'):
             return 'mid_' + self.route
@@ -189,8 +190,9 @@ class Prog(object):
 
     def render(self):
         body = []
-        exprs = [c.expr("REG['%s']" % c.callee if c.unresolvable else self.callee_expr(c.callee),
-                        self.va_name, self.vk_name, None if c.unresolvable else self.route) for c in self.calls]
+        reg = lambda c: c.unresolvable and self.route != 'param_default'
+        exprs = [c.expr("REG['%s']" % c.callee if reg(c) else self.callee_expr(c.callee),
+                        self.va_name, self.vk_name, None if reg(c) else self.route) for c in self.calls]
         for i in range(self.decoys):
             body.append('decoy(%d, k=%d)' % (i, i))
         taint_before = taint_after = []
@@ -300,7 +302,10 @@ class Prog(object):
             lines.append('wrapper = inst.wrapper')
         else:
             for d in cal_defs:
-                lines += [d[0], d[1]]
+                if self.nosource:
+                    lines.append('exec(%r)' % (d[0] + '\n' + d[1] + '\n'))
+                else:
+                    lines += [d[0], d[1]]
             lines.append('REG = {%s}' % ', '.join("'%s': %s" % (k, k) for k in self.callees))
             lines += ['def mid_chain_kw(*args, fparam, **kwargs):', '    return fparam(*args, **kwargs)',
                       'def mid_chain_pos(fparam, *args, **kwargs):', '    return fparam(*args, **kwargs)']
@@ -324,6 +329,22 @@ class Prog(object):
                 lines.append('def wrapper_(%s):' % sig)
                 lines += ['    ' + b for b in body]
                 lines.append('wrapper = functools.partial(wrapper_, %s)' % list(self.callees)[0])
+            elif self.route == 'param_default':
+                # the callee is a parameter that merely HAS a default: the analysis runs with a
+                # known argument (functools.partial binds first_) that does not cover it, so the
+                # callee cannot be resolved statically (the caller may still pass another one)
+                pre = [q for q in self.outer if q[1] != 'VK']
+                parts = ['first_']
+                if pre:
+                    parts.append(param_list_src(pre))
+                if not any(q[1] in ('VP', 'KO') for q in pre):
+                    parts.append('*')
+                parts.append('fparam=%s' % list(self.callees)[0])
+                if self.vk_name:
+                    parts.append('**' + self.vk_name)
+                lines.append('def wrapper_(%s):' % ', '.join(parts))
+                lines += ['    ' + b for b in body]
+                lines.append('wrapper = functools.partial(wrapper_, 0)')
             elif self.route == 'modifiers':
                 # two stacked modifiers: the analysis goes through the autoforwards hint
                 named = [name_of(q[0]) for q in self.outer if q[1] == 'PK']
@@ -381,7 +402,7 @@ def gen_programs(rng, count, tainted=False, contexts=None, routes=None, valid_on
         p.outer = rng.choice(outers)
         # positional-only wrapper parameters cannot carry the method route's self
         p.route = rng.choice(routes)
-        if p.route in ('method', 'parameter') and any(k == 'PO' for (_, k, _, _, _) in p.outer):
+        if p.route in ('method', 'parameter', 'param_default') and any(k == 'PO' for (_, k, _, _, _) in p.outer):
             continue
         if p.route == 'modifiers':
             named = [q for q in p.outer if q[1] in ('PO', 'PK', 'KO')]
@@ -390,7 +411,7 @@ def gen_programs(rng, count, tainted=False, contexts=None, routes=None, valid_on
                 continue
         p.context = rng.choice(contexts)
         ncalls = 2 if p.context == 'ifelse2' else rng.choice([1, 1, 1, 2])
-        if p.route == 'parameter':
+        if p.route in ('parameter', 'param_default'):
             ncalls = 1
             if p.context == 'ifelse2':
                 p.context = 'if'
@@ -433,6 +454,8 @@ def gen_programs(rng, count, tainted=False, contexts=None, routes=None, valid_on
             if (len(p.calls) == 1 and p.route in ('global', 'closure', 'attribute')
                     and rng.random() < 0.25):
                 cobj.unresolvable = True
+            if p.route == 'param_default':
+                cobj.unresolvable = True
             p.calls.append(cobj)
         if not ok:
             continue
@@ -442,6 +465,7 @@ def gen_programs(rng, count, tainted=False, contexts=None, routes=None, valid_on
                 c.partial = True
         p.decoys = rng.choice([0, 0, 1, 2])
         p.rename_locals = rng.random() < 0.3
+        p.nosource = p.route != 'method' and rng.random() < 0.12
         if tainted:
             stars = [s for s, present in (('args', has_va), ('kwargs', has_vk)) if present]
             star = rng.choice(stars)
